@@ -1,189 +1,63 @@
-(* PathMatcher WITH Create returns when every list selector of the path matches itself —
-   proved for the usual shape of replacement target paths: any parts, then at most one list
-   selector, then only (non-empty) field names after it. *)
+(* PathMatcher always returns: with the create-and-retry of doSeq guarded (a second search that
+   finds nothing is an error) two units of fuel are enough for every path, every document and every
+   Create kind — no hypothesis on the selector values is left. *)
 From KV Require Import Base.Regex Yaml.Match Yaml.MatchProofs.
 
 Ltac inv H := inversion H; subst; clear H.
-
-Definition field_part (p : string) : bool :=
-  match classify_pm p with PPField name => negb (String.eqb name "") | _ => false end.
-Definition fields_only (path : list string) : bool := forallb field_part path.
-
-Fixpoint sel_then_fields (path : list string) : bool :=
-  match path with
-  | [] => true
-  | p :: rest =>
-      match classify_pm p with
-      | PPSel _ => fields_only rest
-      | _ => sel_then_fields rest
-      end
-  end.
-
-(* outcome "returned something or failed cleanly" *)
-Definition found_or_err (r : res (node * list hit)) : Prop :=
-  match r with Ok (_, h) => h <> [] | Err => True | _ => False end.
-
-Lemma visit_elems_last (f : node -> res (node * list hit)) : forall l i x l' hs,
-  visit_elems f i (l ++ [x]) = Ok (l', hs) ->
-  (exists x' h, f x = Ok (x', h) /\ h <> []) -> hs <> [].
-Proof.
-  induction l as [|a t IH]; intros i x l' hs H (x' & h & Fx & Hh); cbn in H.
-  - rewrite Fx in H. cbn in H. inv H. destruct h; [congruence|]. cbn. discriminate.
-  - destruct (f a) as [[a1 h1]| | |]; cbn in H; try discriminate.
-    destruct (visit_elems f (S i) (t ++ [x])) as [[t1 h2]| | |] eqn:V; cbn in H; inv H.
-    assert (h2 <> []) by (eapply IH; eauto).
-    destruct h2; [congruence|]. destruct (map (push i) h1); cbn; discriminate.
-Qed.
-
-Lemma visit_elems_last_err (f : node -> res (node * list hit)) x :
-  f x = Err -> forall l i r, visit_elems f i (l ++ [x]) <> Ok r.
-Proof.
-  intros Fx. induction l as [|a t IH]; intros i r V; cbn in V.
-  - rewrite Fx in V. discriminate.
-  - destruct (f a) as [[a1 h1]| | |]; cbn in V; try discriminate.
-    destruct (visit_elems f (S i) (t ++ [x])) as [[t1 h2]| | |] eqn:V2; cbn in V; try discriminate.
-    eapply IH; eauto.
-Qed.
-
-Lemma retry_two visit new_elem cr f :
-  (forall e, visit e <> Diverge) ->
-  found_or_err (visit new_elem) ->
-  forall es, retry_loop visit new_elem cr (S (S f)) es <> Diverge.
-Proof.
-  intros Hv Hn es. cbn [retry_loop].
-  pose proof (visit_elems_total visit es 0 (fun e _ => Hv e)) as T1.
-  destruct (visit_elems visit 0 es) as [[es1 h1]| | |]; cbn; try discriminate; [|congruence].
-  destruct h1; [|discriminate]. destruct cr; [|discriminate].
-  pose proof (visit_elems_total visit (es1 ++ [new_elem]) 0 (fun e _ => Hv e)) as T2.
-  destruct (visit_elems visit 0 (es1 ++ [new_elem])) as [[es2 h2]| | |] eqn:V; cbn; try discriminate; [|congruence].
-  destruct h2 as [|x t]; [|discriminate]. exfalso.
-  unfold found_or_err in Hn. destruct (visit new_elem) as [[x' h]| | |] eqn:Fx; try contradiction.
-  - eapply (visit_elems_last visit es1 0 new_elem es2 []); eauto.
-  - eapply visit_elems_last_err; eauto.
-Qed.
 
 Section Total.
   Variable parse : string -> option re.
   Variable enc : node -> string.
   Variable nonstr : string -> bool.
-  Variable k : kind.                    (* Create = Some k *)
+  Variable create : option kind.
   Variable fuel : nat.
 
-  Notation pmc := (pm parse enc nonstr (Some k)).
+  Notation pmc := (pm parse enc nonstr create (S (S fuel))).
 
-  (* after a list selector only field names follow: the walk creates what is missing and returns it *)
-  Lemma fields_found : forall f path, fields_only path = true -> forall n, found_or_err (pmc f path n).
+  Theorem pm_total : forall path n, pmc path n <> Diverge.
   Proof.
-    intros f. induction path as [|p rest IH]; intros Hf n; cbn [pm].
-    - cbn. discriminate.
-    - cbn in Hf. apply andb_prop in Hf. destruct Hf as [Hp Hr].
-      unfold field_part in Hp. destruct (classify_pm p) as [| | |name]; try discriminate.
-      apply negb_true_iff in Hp. rewrite Hp.
-      destruct n as [t s v|kvs|es].
-      + destruct (is_null _); cbn; auto.
-        specialize (IH Hr (quote11 nonstr (empty_of (path_part_kind (hd "" rest) k)))).
-        cbn in IH. destruct (pmc f rest _) as [[x h]| | |]; cbn in *; auto.
-        destruct h; [congruence|]; discriminate.
-      + destruct (find_field name kvs) as [x|].
-        * specialize (IH Hr x). destruct (pmc f rest x) as [[x1 h]| | |]; cbn in *; auto.
-          destruct h; [congruence|]; discriminate.
-        * cbn. specialize (IH Hr (quote11 nonstr (empty_of (path_part_kind (hd "" rest) k)))).
-          cbn in IH. destruct (pmc f rest _) as [[x h]| | |]; cbn in *; auto.
-          destruct h; [congruence|]; discriminate.
-      + cbn. auto.
-  Qed.
-
-  Lemma found_not_diverge r : found_or_err r -> r <> Diverge.
-  Proof. destruct r as [[? ?]| | |]; cbn; intros; try discriminate; contradiction. Qed.
-
-  (* every list selector [fld=v] of the path: v, compiled, matches the text of the scalar v *)
-  Definition self_matching (path : list string) : Prop :=
-    forall p fld v r, In p path -> split_index_name_value p = Some (fld, v) -> parse v = Some r ->
-      matches r (enc (Scalar TNone SPlain v)) = true.
-
-  Theorem pm_create_total : forall path,
-    sel_then_fields path = true -> self_matching path ->
-    forall n, pmc (S (S fuel)) path n <> Diverge.
-  Proof.
-    induction path as [|p rest IH]; intros Hs Hm n; cbn [pm]; [discriminate|].
-    assert (Hm' : self_matching rest) by (intros q; intros; eapply Hm; eauto; right; auto).
-    cbn [sel_then_fields] in Hs.
+    induction path as [|p rest IH]; intros n; cbn [pm]; [discriminate|].
     destruct (classify_pm p) as [i|raw| |name] eqn:Cp.
-    - (* index *)
-      destruct n as [t s v|kvs|es].
+    - destruct n as [t s v|kvs|es].
       + destruct (is_null _); [|discriminate].
-        destruct (Nat.eqb i 0 && is_create (Some k)); [|discriminate].
-        specialize (IH Hs Hm' (empty_of (path_part_kind (hd "" rest) (leaf_kind (Some k))))).
-        destruct (pmc _ rest _) as [[x h]| | |]; cbn; try discriminate; auto.
-      + discriminate.
-      + destruct (Nat.eqb (List.length es) i && is_create (Some k)).
-        * specialize (IH Hs Hm' (empty_of (path_part_kind (hd "" rest) (leaf_kind (Some k))))).
-          destruct (pmc _ rest _) as [[x h]| | |]; cbn; try discriminate; auto.
+        destruct (Nat.eqb i 0 && is_create create); [|discriminate].
+        match goal with |- (do r <- ?X; _) <> _ => pose proof (IH (empty_of (path_part_kind (hd "" rest) (leaf_kind create)))) as I; destruct X as [[x h]| | |] end; cbn; try discriminate; auto.
+      + cbn. discriminate.
+      + destruct (Nat.eqb (List.length es) i && is_create create).
+        * match goal with |- (do r <- ?X; _) <> _ => pose proof (IH (empty_of (path_part_kind (hd "" rest) (leaf_kind create)))) as I; destruct X as [[x h]| | |] end; cbn; try discriminate; auto.
         * destruct (nth_error es i) as [e|]; [|discriminate].
-          specialize (IH Hs Hm' e). destruct (pmc _ rest e) as [[x h]| | |]; cbn; try discriminate; auto.
-    - (* list selector *)
-      destruct (split_index_name_value raw) as [[fld v]|] eqn:Sp; [|discriminate].
-      assert (Praw : p = raw).
-      { unfold classify_pm in Cp. destruct (atoi p) as [[neg m]|];
-          [destruct (neg && negb (m =? 0)%N); [|discriminate]|];
-          destruct (is_list_index p); try (inv Cp; reflexivity);
-          destruct (String.eqb p "*"); discriminate. }
-      subst raw.
-      match goal with |- context [retry_loop ?vis ?ne ?cr] =>
-        assert (R : forall es, retry_loop vis ne cr (S (S fuel)) es <> Diverge)
+          specialize (IH e). destruct (pmc rest e) as [[x h]| | |]; cbn; try discriminate; auto.
+    - destruct (split_index_name_value raw) as [[fld v]|] eqn:Sp; [|discriminate].
+      match goal with |- context [retry_loop ?vis ?ne ?cr ?app] =>
+        assert (R : forall es, retry_loop vis ne cr app (S (S fuel)) es <> Diverge)
       end.
-      { apply retry_two.
-        - intros e. cbn -[elem_regex]. rewrite elem_regex_text.
-          destruct (parse v) as [r|]; cbn; [|discriminate].
-          destruct (String.eqb fld ""); [destruct (matches r (enc e)); discriminate|].
-          destruct e as [t s v0|kvs|es0]; try discriminate.
-          destruct (find_field fld kvs) as [x|]; [|discriminate].
-          destruct (matches r (enc x)); [|discriminate].
-          apply found_not_diverge, fields_found; auto.
-        - cbn -[elem_regex]. rewrite elem_regex_text.
-          destruct (parse v) as [r|] eqn:Pv; cbn; auto.
-          assert (Self : matches r (enc (Scalar TNone SPlain v)) = true)
-            by (eapply Hm; eauto; left; auto).
-          unfold pm_new_elem. destruct (String.eqb fld "") eqn:Ef.
-          + rewrite Self. cbn. discriminate.
-          + cbn [find_field]. rewrite String.eqb_refl, Self. apply fields_found; auto. }
+      { intros es0. apply retry_total. intros e. cbn -[elem_regex]. rewrite elem_regex_text.
+        destruct (parse v) as [r|]; cbn; [|discriminate].
+        destruct (String.eqb fld ""); [destruct (matches r (enc e)); discriminate|].
+        destruct e as [t s v0|kvs|es1]; try discriminate.
+        destruct (find_field fld kvs) as [x|]; [|discriminate].
+        destruct (matches r (enc x)); [apply IH|discriminate]. }
       destruct n as [t s v0|kvs|es].
       + destruct (is_null _); [|discriminate].
-        specialize (R []). destruct (retry_loop _ _ _ _ []) as [[x h]| | |]; cbn; try discriminate; auto.
+        specialize (R []). destruct (retry_loop _ _ _ _ _ []) as [[x h]| | |]; cbn; try discriminate; auto.
       + discriminate.
-      + specialize (R es). destruct (retry_loop _ _ _ _ es) as [[x h]| | |]; cbn; try discriminate; auto.
-    - (* wildcard *)
-      destruct n as [t s v|kvs|es]; try (destruct (is_null _); discriminate); try discriminate.
-      assert (V : visit_elems (pmc (S (S fuel)) rest) 0 es <> Diverge)
-        by (apply visit_elems_total; intros; apply IH; auto).
-      destruct (visit_elems (pmc (S (S fuel)) rest) 0 es) as [[x h]| | |]; cbn; try discriminate; auto.
-    - (* field *)
-      destruct (String.eqb name "").
+      + specialize (R es). destruct (retry_loop _ _ _ _ _ es) as [[x h]| | |]; cbn; try discriminate; auto.
+    - destruct n as [t s v|kvs|es]; try (destruct (is_null _); discriminate); try discriminate.
+      assert (V : visit_elems (pmc rest) 0 es <> Diverge)
+        by (apply visit_elems_total; intros; apply IH).
+      destruct (visit_elems (pmc rest) 0 es) as [[x h]| | |]; cbn; try discriminate; auto.
+    - destruct (String.eqb name "").
       + destruct n as [t s v|kvs|es]; try discriminate.
-        destruct (negb (is_null (Scalar t s v)) && String.eqb v ""); [apply IH; auto|].
-        cbn [is_create].
-        specialize (IH Hs Hm' (empty_of (path_part_kind (hd "" rest) (leaf_kind (Some k))))).
-        destruct (pmc _ rest _) as [[x h]| | |]; cbn; try discriminate; auto.
+        destruct (negb (is_null (Scalar t s v)) && String.eqb v ""); [apply IH|].
+        destruct (is_create create); [|discriminate].
+        match goal with |- (do r <- ?X; _) <> _ => pose proof (IH (empty_of (path_part_kind (hd "" rest) (leaf_kind create)))) as I; destruct X as [[x h]| | |] end; cbn; try discriminate; auto.
       + destruct n as [t s v|kvs|es].
-        * destruct (is_null _); [|discriminate]. cbn [is_create].
-          specialize (IH Hs Hm' (quote11 nonstr (empty_of (path_part_kind (hd "" rest) (leaf_kind (Some k)))))).
-          destruct (pmc _ rest _) as [[x h]| | |]; cbn; try discriminate; auto.
+        * destruct (is_null _); [|discriminate]. destruct (is_create create); [|discriminate].
+          match goal with |- (do r <- ?X; _) <> _ => pose proof (IH (quote11 nonstr (empty_of (path_part_kind (hd "" rest) (leaf_kind create))))) as I; destruct X as [[x h]| | |] end; cbn; try discriminate; auto.
         * destruct (find_field name kvs) as [x|].
-          -- specialize (IH Hs Hm' x). destruct (pmc _ rest x) as [[x1 h]| | |]; cbn; try discriminate; auto.
-          -- cbn [is_create].
-             specialize (IH Hs Hm' (quote11 nonstr (empty_of (path_part_kind (hd "" rest) (leaf_kind (Some k)))))).
-             destruct (pmc _ rest _) as [[x1 h]| | |]; cbn; try discriminate; auto.
+          -- specialize (IH x). destruct (pmc rest x) as [[x1 h]| | |]; cbn; try discriminate; auto.
+          -- destruct (is_create create); [|discriminate].
+             match goal with |- (do r <- ?X; _) <> _ => pose proof (IH (quote11 nonstr (empty_of (path_part_kind (hd "" rest) (leaf_kind create))))) as I; destruct X as [[x1 h]| | |] end; cbn; try discriminate; auto.
         * discriminate.
   Qed.
 End Total.
-
-(* non-vacuity: the usual replacement target path with a self-matching selector value *)
-Example pm_create_total_example :
-  sel_then_fields ["spec"; "containers"; "[name=zz]"; "image"] = true /\
-  self_matching (parse_of [("zz", Some (lit "zz"))]) node_value ["spec"; "containers"; "[name=zz]"; "image"].
-Proof.
-  split; [reflexivity|].
-  intros p fld v r Hin Hs Hp. cbn in Hin.
-  destruct Hin as [<-|[<-|[<-|[<-|[]]]]]; cbn in Hs; try discriminate.
-  inv Hs. cbn in Hp. inv Hp. reflexivity.
-Qed.
